@@ -8,8 +8,22 @@
 From Verif Require Import GoSem.
 From Coq Require Import ZifyBool.
 
-(** * calcAudioTimeFromRef (audiosegmentation.go L48-54) *)
+(** * calcAudioTimeFromRef (audiosegmentation.go), since the 128-bit fix: the product
+    refTime*audioTimescale is exact ([bits.Mul64]), [mulDiv64] returns the low 64 bits of the quotient
+    ([bits.Div64(hi%c, lo, c)]) and the exact remainder; the comparison
+    [audioOutTime*refTimescale < refTime*audioTimescale] is decided from quotient and remainder. *)
 Definition calcAudioTimeFromRef (refTime refTimescale frameDur audioTimescale : Z) : res Z :=
+  if refTimescale =? 0 then Panic "calcAudioTimeFromRef: integer divide by zero (refTimescale)" else
+  let x := refTime * audioTimescale in
+  let audioTime := u64 (x / refTimescale) in
+  let rem := x mod refTimescale in
+  if frameDur =? 0 then Panic "calcAudioTimeFromRef: integer divide by zero (audioFrameDur)" else
+  let out := audioTime / frameDur * frameDur in
+  if (out <? audioTime) || (rem >? 0) then Ok (u64 (out + frameDur)) else Ok out.
+
+(** the function as it was before that fix: product and comparison in uint64 (finding
+    audio-time-uint64-overflow); kept for the witness C03_boundary_before_fix *)
+Definition calcAudioTimeFromRef_before_fix (refTime refTimescale frameDur audioTimescale : Z) : res Z :=
   if refTimescale =? 0 then Panic "calcAudioTimeFromRef: integer divide by zero (refTimescale)" else
   if frameDur =? 0 then Panic "calcAudioTimeFromRef: integer divide by zero (audioFrameDur)" else
   let out := u64 (u64 (refTime * audioTimescale) / refTimescale / frameDur * frameDur) in
